@@ -29,6 +29,7 @@ theorem cases_dominate (pt : List Int) (k : Nat) (perm : List Nat) (h : Partitio
 theorem replications_disjoint (n r s : Nat) (h : r < s) : ∀ p ∈ tapeSlice n r, p ∉ tapeSlice n s :=
   tapeSlices_disjoint n r s h
 
+/-- the noise draws of `R` replications over `n` samples are consecutive slices of one stream: together they use positions `0 … R·n-1` exactly once -/
 theorem replications_cover (n R : Nat) : (List.range R).flatMap (tapeSlice n) = List.range' 0 (R * n) :=
   tapeSlices_cover n R
 
